@@ -77,7 +77,9 @@ def main():
                     print((r.stdout + r.stderr)[-1500:])
         finally:
             shutil.rmtree(tmp, ignore_errors=True)
-    out = os.path.join(os.path.dirname(mdir), "results-" + os.path.basename(mdir) + ".json")
+    out = os.path.join(VERIF, "selftest", "results-" + os.path.basename(mdir) + ".json")
+    if args.only:
+        out = os.path.join(VERIF, "selftest", "results-last-partial.json")
     json.dump(results, open(out, "w"), indent=1)
     bad = [r for r in results if r["status"] != "detected"]
     print(f"{len(results)-len(bad)}/{len(results)} detected")
